@@ -600,6 +600,115 @@ theorem count_record (n : String) (c : List String) (fl : List String) (fp : Pos
   simp only [topTypes, kindRules, List.count_append, List.flatMap_nil, List.count_nil]
   omega
 
+theorem count_interface (n : String) (c : List String) (main : Bool) (fl : List String) (fp : Pos)
+    (methods : List Method) (props : List Prop') (pos : Pos)
+    (hb : Binds m reg (walkDecl e ns (.interface n c main fl fp methods props pos)).refs) :
+    N m reg x (walkDecl e ns (.interface n c main fl fp methods props pos))
+      = (declRules (specEnvOf e reg) e.file ns (.interface n c main fl fp methods props pos)).count x := by
+  have hc := (covers_walkMethods e ns methods).append (covers_walkProps e ns props)
+  have hb' : Binds m reg (walkMethods e ns methods ++ walkProps e ns props).refs := fun r hr => hb r (by
+    simp only [walkDecl, Collected.refs_append, List.mem_append] at hr ⊢; exact Or.inl (Or.inl hr))
+  have hbM : Binds m reg (walkMethods e ns methods).refs := Binds.left hb'
+  have hbP : Binds m reg (walkProps e ns props).refs := Binds.right hb'
+  have hL : ∀ t ∈ methods.flatMap methodTypes ++ props.map (·.ty), primOf m e.file t = specPrim (specEnvOf e reg) ns t :=
+    fun t ht => hc.primOf_eq reg m hb' t ht
+  have hsig : ∀ s ∈ methods.map sigOfMethod,
+      (sigDiags m e.file s).count x = (sigRules (specEnvOf e reg) e.file ns s).count x := by
+    intro s hs
+    obtain ⟨mth, hm, rfl⟩ := List.mem_map.mp hs
+    have hsub : ∀ u ∈ sigTypes (sigOfMethod mth), u ∈ methodTypes mth := fun u hu => hu
+    exact count_sigDiags (specEnvOf e reg) m e.file ns (sigOfMethod mth)
+      (fun u hu => hL u (List.mem_append_left _ (List.mem_flatMap.mpr ⟨mth, hm, hsub u hu⟩))) x
+  rw [count_declRules _ _ _ _ (methods.map sigOfMethod) rfl (by intro _ _ _ _ h; cases h)]
+  simp only [walkDecl]
+  rw [N_append, N_append, N_append, count_walkMethods e reg m ns x methods hbM, count_walkProps e reg m ns x props hbP,
+    N_diagsOnly, N_reg1]
+  have hu : unitDiags m ⟨e.file, ns, .iface (methods.map sigOfMethod)⟩
+      = (methods.map sigOfMethod).flatMap (sigDiags m e.file) := rfl
+  have htop : topTypes (.interface n c main fl fp methods props pos) = methods.flatMap methodTypes ++ props.map (·.ty) := rfl
+  rw [hu, count_flatMap_congr _ _ _ x hsig, htop, count_listRules_append, staticConstDiags_eq, staticDiags_eq,
+    targetDiags_eq_unknownTargets e reg]
+  simp only [kindRules, mk, List.count_append]
+  omega
+
 end kinds
+
+/-- **Per declaration, with multiplicities**: every diagnostic is reported as often as the specification lists it. -/
+theorem count_walkDecl (e : Env) (reg : Registry) (m : Resolved) (ns : List String) (d : Decl)
+    (hb : Binds m reg (walkDecl e ns d).refs) (x : Diag) :
+    N m reg x (walkDecl e ns d) = (declRules (specEnvOf e reg) e.file ns d).count x := by
+  cases d with
+  | enum n c items pos => exact count_enum e reg m ns x n c items pos
+  | flags n c items pos => exact count_flags e reg m ns x n c items pos
+  | record n c fl fp fields der pos => exact count_record e reg m ns x n c fl fp fields der pos hb
+  | interface n c main fl fp methods props pos => exact count_interface e reg m ns x n c main fl fp methods props pos hb
+  | function n c sig pos => exact count_function e reg m ns x n c sig pos hb
+  | error n c codes pos => exact count_error e reg m ns x n c codes pos hb
+
+/-- `count_walkDecl` as a permutation: for one declaration, the front end's list
+    (visit-time ++ reference-level ++ post-resolution diagnostics) is a permutation of `declRules` -/
+theorem walkDecl_perm_declRules (env : Env) (reg : Registry) (m : Resolved) (ns : List String) (d : Decl)
+    (hb : ∀ r ∈ (walkDecl env ns d).refs, m.get r.file r.pos = lexicalLookup reg r.ns r.name) :
+    ((walkDecl env ns d).diags ++ (walkDecl env ns d).refs.flatMap (refDiags reg)
+        ++ (walkDecl env ns d).units.flatMap (unitDiags m)).Perm
+      (declRules { keys := env.keys, defaultDeriving := env.defaultDeriving, reg := reg } env.file ns d) :=
+  List.perm_iff_count.mpr (fun x => count_walkDecl env reg m ns d hb x)
+
+/-! ### per file, with multiplicities -/
+
+mutual
+theorem count_walkContent (e : Env) (reg : Registry) (m : Resolved) (ns : List String) (x : Diag) (c : Content)
+    (hb : Binds m reg (walkContent e ns c).refs) :
+    N m reg x (walkContent e ns c)
+      = ((declsOfContent ns c).flatMap (fun p => declRules (specEnvOf e reg) e.file p.1 p.2)).count x := by
+  cases c with
+  | decl d =>
+    simp only [walkContent] at hb ⊢
+    simp only [declsOfContent, List.flatMap_cons, List.flatMap_nil, List.append_nil]
+    exact count_walkDecl e reg m ns d hb x
+  | ns name cm children pos =>
+    simp only [walkContent] at hb ⊢
+    simp only [declsOfContent]
+    exact count_walkContents e reg m _ x children hb
+theorem count_walkContents (e : Env) (reg : Registry) (m : Resolved) (ns : List String) (x : Diag) (cs : List Content)
+    (hb : Binds m reg (walkContents e ns cs).refs) :
+    N m reg x (walkContents e ns cs)
+      = ((declsOfContents ns cs).flatMap (fun p => declRules (specEnvOf e reg) e.file p.1 p.2)).count x := by
+  cases cs with
+  | nil => simp only [walkContents, declsOfContents, N_empty, List.flatMap_nil, List.count_nil]
+  | cons c cs =>
+    simp only [walkContents, Collected.refs_append] at hb
+    simp only [walkContents, declsOfContents, List.flatMap_append, List.count_append]
+    rw [N_append, count_walkContent e reg m ns x c hb.left, count_walkContents e reg m ns x cs hb.right]
+end
+
+theorem violations_single_eq (keys dd : List String) (pre : Registry) (file : String) (contents : List Content) :
+    violations keys dd pre [{ file := file, contents := contents }]
+      = (declsOfContents [] contents).flatMap (fun p =>
+          declRules { keys := keys, defaultDeriving := dd, reg := progRegistry pre [{ file := file, contents := contents }] } file p.1 p.2) := by
+  unfold violations
+  rw [progDecls_single, List.flatMap_map]
+
+/-- **The diagnostics of a file are a permutation of the specification's violations.** Under the hypotheses of
+    `finishFile_eq_violations` (declarations registered without duplicate, references at pairwise distinct positions,
+    nothing bound yet), the list `finishFile` returns is a permutation of `violations`: every diagnostic is reported
+    exactly as often as the specification lists it. -/
+theorem finishFile_perm_violations (cfg : Cfg) (file : APath) (contents : List Content) (st : PState) (reg : Registry)
+    (hres : st.resolved = [])
+    (hreg : registerAll st.reg (walkContents { file := showPath file, keys := cfg.keys, defaultDeriving := cfg.defaultDeriving } [] contents).regs = .ok reg)
+    (hnd : ((walkContents { file := showPath file, keys := cfg.keys, defaultDeriving := cfg.defaultDeriving } [] contents).refs.map
+              (fun r => (r.file, r.pos))).Nodup) :
+    let c := walkContents { file := showPath file, keys := cfg.keys, defaultDeriving := cfg.defaultDeriving } [] contents
+    ∃ m ds, finishFile cfg file contents {} st
+        = .ok ({ units := c.units, refs := c.refs, errors := ds }, { st with reg := reg, resolved := m })
+      ∧ ds.Perm (violations cfg.keys cfg.defaultDeriving st.reg [{ file := showPath file, contents := contents }]) := by
+  intro c
+  obtain ⟨m, hfin, hbind⟩ := finishFile_out cfg file contents st reg hres hreg hnd
+  have hregeq := registerAll_eq_progRegistry
+    { file := showPath file, keys := cfg.keys, defaultDeriving := cfg.defaultDeriving } st.reg reg contents hreg
+  refine ⟨m, _, hfin, List.perm_iff_count.mpr (fun x => ?_)⟩
+  rw [violations_single_eq, ← hregeq]
+  exact count_walkContents { file := showPath file, keys := cfg.keys, defaultDeriving := cfg.defaultDeriving }
+    reg m [] x contents hbind
 
 end Pydjinni.Front
